@@ -400,6 +400,20 @@ pub fn m<X: Val>(ev: u32) -> impl Fn(X) -> X + Copy + Send + Sync + 'static {
         x.stamp(ev)
     }
 }
+/// usize -> usize, value changing (usize has no stamp): the steps of a Copy-valued branch must be distinguishable
+pub fn inc(ev: u32) -> impl Fn(usize) -> usize + Copy + Send + Sync + 'static {
+    move |x: usize| {
+        event(ev, x.dg());
+        (x.wrapping_mul(31).wrapping_add(ev as usize + 7)) % 1_000_003
+    }
+}
+/// identity callback that was BUILT from a Copy value read from a `let` name of another branch: the digest it logs includes it
+pub fn seen<X: Val, N: Val + Copy + Send + Sync + 'static>(ev: u32, n: N) -> impl Fn(X) -> X + Copy + Send + Sync + 'static {
+    move |x: X| {
+        event(ev, mix(x.dg(), n.dg()));
+        x.stamp(ev)
+    }
+}
 /// type-changing callback X -> Tok
 pub fn flat<X: Val>(ev: u32) -> impl Fn(X) -> Tok + Copy + Send + Sync + 'static {
     move |x: X| {
